@@ -55,6 +55,12 @@ func c05Probes(r *simnet.Rng, s *spec.RunSpec, n int) {
 			p.Arg = r.Intn(3000)
 		}
 		p.HoldUs = int64(r.Pick(500000, 2000000, 15000000, 130000000))
+		if (p.Kind == "bitflip" || p.Kind == "trunc") && r.Bool(0.4) {
+			p.AfterEnd, p.AfterEndDelayUs = true, int64(r.Pick(0, 1000000, 6000000, 11000000))
+			if p.Kind == "bitflip" && r.Bool(0.5) {
+				p.Arg = -(1 + r.Intn(64)) // in the tail: padding
+			}
+		}
 		s.Attack.Probes = append(s.Attack.Probes, p)
 	}
 	if tr == "udp" && r.Bool(0.3) {
@@ -109,6 +115,17 @@ func c05Enumerate(bin string, master uint64, tier string) ([]*spec.RunSpec, []st
 			s.Attack.Probes = append(s.Attack.Probes, spec.Probe{Kind: "bitflip", Transport: tr, IP: attackerIP(k), AtUs: 500000 + int64(k)*300, Source: 0, Arg: b, HoldUs: 3000000})
 			k++
 		}
+		// After the copied session has ended and the server has forgotten it, the replay
+		// record is all that ties a modified copy to the original: bit flips in the last
+		// 12 bytes (unauthenticated padding) and every 16th bit elsewhere, one by one.
+		for b := 1; b <= 96; b++ {
+			s.Attack.Probes = append(s.Attack.Probes, spec.Probe{Kind: "bitflip", Transport: tr, IP: attackerIP(k), AtUs: 500000, Source: 0, Arg: -b, HoldUs: 3000000, AfterEnd: true, AfterEndDelayUs: 7000000 + int64(b)*300})
+			k++
+		}
+		for b := int(master % 16); b < 150*8; b += 16 {
+			s.Attack.Probes = append(s.Attack.Probes, spec.Probe{Kind: "bitflip", Transport: tr, IP: attackerIP(k), AtUs: 500000, Source: 0, Arg: b, HoldUs: 3000000, AfterEnd: true, AfterEndDelayUs: 7100000 + int64(b)*30})
+			k++
+		}
 		out = append(out, s)
 		// Truncations of a first segment that the attacker intercepted: the original never
 		// reaches the server, so nothing but the segment's own checks can refuse the copy.
@@ -147,7 +164,7 @@ func c05Enumerate(bin string, master uint64, tier string) ([]*spec.RunSpec, []st
 func init() {
 	register(&propDef{
 		id: "C05", level: "fault_enumeration", quickRuns: 96, thoroughRuns: 2000, wallPerRun: 5 * time.Minute,
-		rule:        "Attacker actors without any registered credential run beside a genuine C01/C02 workload, each from its own source address. Enumerated part: every prefix (0..150 bytes) and every single-bit mutation (every 5th bit in the quick tier, every bit in the thorough tier) of a genuine first segment recorded in the same run from an already accepted connection, on TCP and on UDP. Random part: 3-12 probes per run drawn from random strings of boundary lengths, prefixes/truncations/bit flips, well-formed reference-encoded handshakes under an unregistered user, a registered name with a wrong password, and an unregistered key carrying the user hint of a real user; one write or dribbled; held open 0.5-130 virtual s. Oracle: bytes/datagrams from the server towards an attacker address = 0 for the whole run, Server.Accept never returns a connection from one, the server's session list never shows one, and the genuine workload's stream oracle still holds.",
+		rule:        "Attacker actors without any registered credential run beside a genuine C01/C02 workload, each from its own source address. Enumerated part: every prefix (0..150 bytes) and every single-bit mutation (every 5th bit in the quick tier, every bit in the thorough tier) of a genuine first segment recorded in the same run from an already accepted connection, on TCP and on UDP. Random part: 3-12 probes per run drawn from random strings of boundary lengths, prefixes/truncations/bit flips, well-formed reference-encoded handshakes under an unregistered user, a registered name with a wrong password, and an unregistered key carrying the user hint of a real user; one write or dribbled; held open 0.5-130 virtual s. Oracle: bytes/datagrams from the server towards an attacker address = 0 for the whole run, Server.Accept never returns a connection from one, the server's session list never shows one, and the genuine workload's stream oracle still holds. On-path variant: the genuine first segment is swallowed by the fault plan (never reaches the server, so replay detection has not seen it) and the attacker sends it without its last 1..36 (thorough: 1..150) bytes from its own address - one victim client per truncation, because the server remembers a handshake as soon as its metadata decrypts; the same in 30 % of the random UDP runs.",
 		assumptions: []string{"an attacker is identified by its source address (10.9.x.y)", "bit flips that land in unauthenticated padding make a byte-exact replay of an accepted handshake; C06's mechanism must then refuse it - it still counts here"},
 		components:  realComponents,
 		enumerate:   c05Enumerate,
@@ -172,7 +189,7 @@ func init() {
 	})
 	register(&propDef{
 		id: "C06", level: "exploration", quickRuns: 96, thoroughRuns: 2000, wallPerRun: 5 * time.Minute,
-		rule:        "Replayer actors own everything the tap recorded of genuine sessions in the same run and re-send it from their own source address: the whole client-to-server TCP stream, each prefix ending at a segment boundary, the first segment alone, recorded UDP datagrams (all, or the first) - at offsets 0 s to 5 min after the original, before or after the original session ended, concurrently with fresh genuine dials. The process-wide replay caches are rebased onto the virtual clock so that rotation by time happens in long runs. Oracle as C05: zero bytes back, no Accept, no session, genuine dials keep succeeding. (The cache-history half of C06 is the separate scenario 'replaycache'.)",
+		rule:        "Replayer actors own everything the tap recorded of genuine sessions in the same run and re-send it from their own source address: the whole client-to-server TCP stream, each prefix ending at a segment boundary, the first segment alone, recorded UDP datagrams (all, or the first) - at offsets 0 s to 5 min after the original, before or after the original session ended, concurrently with fresh genuine dials. The process-wide replay caches are rebased onto the virtual clock so that rotation by time happens in long runs. Oracle as C05: zero bytes back, no Accept, no session, genuine dials keep succeeding. (The cache-history half of C06 is the separate scenario 'replaycache'.) Cache histories: three per end-to-end run; half of them are directed (bursts of about `capacity` new entries placed just before / after a multiple of the interval or one interval after the previous burst, a short sleep across that instant, a few more new entries, then the recent ones again).",
 		assumptions: []string{"a replay is byte-exact and arrives from a different source address", "key and timestamp validity: replays are sent within 5 virtual minutes"},
 		components:  realComponents,
 		gen: func(master uint64, idx int, tier string) *spec.RunSpec {
